@@ -14,7 +14,7 @@ import time
 
 import xv
 
-REPLAY_DIR = os.path.join(xv.VERIF, "evidence", "replays")
+REPLAY_DIR = os.path.join(xv.EVIDENCE_DIR, "replays")
 
 
 def _playback_values(scr, h):
